@@ -397,6 +397,10 @@ def run(facts, rep, tier):
              "(item 100 of a converted list must still be an item when the inverse action re-reads it).")
     from . import c07 as _c07
     _c07.rule_r4(facts, rep, rid="C10-R7d")
+    rep.rule("C10-R8", "One set of markdown options: Server::new gives the database a copy of the configured options and keeps the configuration itself unmodified, and the two "
+             "markdown_options() accessors return those fields - an action must not re-render the note with default options (refs_extension dropped from every block reference).")
+    from . import options
+    options.rule_one_options(facts, rep, "C10-R8")
 
 class _Conv:
     """Forwards only the instances located in the list/section conversion actions."""
